@@ -4,6 +4,7 @@ harness counters become the evidence coverage block."""
 RT = ["vh_rt.c"]
 from . import c20 as _c20
 from . import c19 as _c19
+from . import c14tla as _c14tla
 
 
 def _cov(rule, extra=None):
@@ -299,15 +300,22 @@ def _mc_cov(rule, extra=None):
 
 CHECKS["C14"] = dict(
     level="model_checking",
-    jobs=lambda tier: [dict(name="c14", variant="o2", sources=["e_c14.c"] + RT, flags=["-DVH_MALLOC_SEAM"])],
+    jobs=lambda tier: [dict(name="c14", variant="o2", sources=["e_c14.c"] + RT, flags=["-DVH_MALLOC_SEAM"]),
+                       # TLA+ model explored by TLC; every edge of its state graph replayed against the real crypt_ra
+                       dict(name="c14tla", variant="o2", script=_c14tla.run)],
     coverage=_mc_cov("explicit-state BFS on the real crypt_ra/crypt_gensalt_ra under the allocator seam: 17 start states of (*data,*size) "
                      "(NULL with size 0/stale/negative; exact, larger; 1-, 100-, sizeof-1-byte blocks with true/zero/negative recorded size) x "
                      "alphabet of 12 operations (3 succeeding hashes, bad character, unknown prefix, 600-byte phrase, NULL setting, caller "
                      "free+reset, gensalt_ra ok/fail, and crypt_ra / gensalt_ra while the allocator fails); state = (real block size, recorded size, block contents, live-block count), "
                      "re-materialised by replaying the shortest history; depth cap 6, closure reported per start state; "
                      "every transition is an execution of the implementation checked against the protocol model, and every reached state ends "
-                     "with the caller's single free (ledger must be empty)",
-                     lambda s, t: dict(start_states_closed=int(s.get("start_states_closed", 0)),
+                     "with the caller's single free (ledger must be empty); second job: tla/CryptRa.tla (abstract state: block class x recorded-size class x "
+                     "live count) is explored completely by TLC with -dump dot,actionlabels and every edge of the dumped graph (39 after merging the "
+                     "label variable) is replayed against the real crypt_ra from a concretised source state, the abstraction of the concrete "
+                     "post-state must equal the model's successor",
+                     lambda s, t: dict(tlc_distinct_states=int(s.get("tlc_distinct_states", 0)), model_edges=int(s.get("model_edges", 0)),
+                                       model_edges_replayed=int(s.get("model_edges_replayed", 0)),
+                                       start_states_closed=int(s.get("start_states_closed", 0)),
                                        start_states_depth_capped=int(s.get("start_states_depth_capped", 0)), max_depth=int(s.get("max_depth", 0)))),
     assumptions=["recorded sizes larger than the real block are caller contract violations and are not used as start states",
                  "realloc in the seam always moves the block and scribbles the old one, so stale-pointer use is visible"],
@@ -318,7 +326,7 @@ CHECKS["C14"] = dict(
              "ledger; invariants: *data unchanged or a live block with sizeof <= *size <= real size, erased before growth, zero after growth, "
              "result inside the block, no leak and no double free when the caller frees once.",
         note="allocator seam (malloc/realloc/free defined in the harness over __libc_*) is the observation point; search is bounded by depth 4/6 where the state space does not close earlier.",
-        technique="explicit-state BFS over operation histories on the real code with state hashing and replay-based state re-materialisation",
+        technique="explicit-state BFS over operation histories on the real code with state hashing and replay-based state re-materialisation; TLC model check of a TLA+ protocol model with every model edge replayed against the implementation",
         ref="DESIGN.md 3/C14"),
 )
 
